@@ -179,7 +179,23 @@ func runC14(c C14Case, ev *Evid) (fs []Finding) {
 			add("encode-clobbers-dst", "msg %d (%s): AppendTo changed or dropped the %d bytes already in dst", i, m.Kind, len(buf))
 			return
 		}
-		bs = append(bs, built{m, obj, fresh, append([]byte(nil), out[len(buf):]...)})
+		enc := append([]byte(nil), out[len(buf):]...)
+		// the same message into a REUSED buffer: spare capacity full of stale bytes (buf[:n] of a pooled buffer)
+		dirty := make([]byte, len(c.Dst)+len(enc)+40)
+		for j := range dirty {
+			dirty[j] = 0xA5
+		}
+		copy(dirty, c.Dst)
+		var out2 []byte
+		if pm := guard(func() { out2 = obj.AppendTo(dirty[:len(c.Dst)]) }); pm != "" {
+			add("encode-panic", "msg %d (%s): AppendTo into a reused buffer panicked: %s", i, m.Kind, pm)
+			return
+		}
+		if len(out2) != len(c.Dst)+len(enc) || !bytesEq(out2[:len(c.Dst)], c.Dst) || !bytesEq(out2[len(c.Dst):], enc) {
+			add("encode-depends-on-spare-capacity", "msg %d (%s): encoding into a reused buffer (stale bytes in its spare capacity) gives %d bytes that differ from the %d-byte encoding into a fresh one", i, m.Kind, len(out2)-len(c.Dst), len(enc))
+			return
+		}
+		bs = append(bs, built{m, obj, fresh, enc})
 		buf = out
 	}
 	stream := append(append([]byte(nil), buf[len(c.Dst):]...), c.Trailing...)
@@ -342,6 +358,9 @@ func genMsg(t *rapid.T, kinds []string) Msg {
 	switch m.Kind {
 	case "header":
 		l := genLayout(t, defaultLayoutOpts())
+		if rapid.IntRange(0, 5).Draw(t, "manyArchives") == 0 {
+			l = genManyArchiveLayout(t)
+		}
 		m.L = &l
 	case "series":
 		n := rapid.IntRange(0, 40).Draw(t, "n")
